@@ -37,6 +37,7 @@ class Stats:
 
 
 STATS = Stats()
+ABORTS = []        # paths that left the encoding / hit a budget: reported as inconclusive by the worker
 DEADLINE = [None]     # soft wall-clock deadline of the worker (checked at every decision)
 
 
@@ -266,7 +267,9 @@ def explore(run, *, max_paths=4000, ctx_kwargs=None, on_path=None):
                 p = Path(ctx, "limit", e)
             except Exception as e:  # exception raised by the code under test
                 p = Path(ctx, "exc", e)
-            if on_path is not None:
+            if p.kind in ("unsupported", "limit"):
+                ABORTS.append("%s on path %s" % (p.value, p.decisions))
+            elif on_path is not None:
                 on_path(p)          # may fork further (real code called by the harness on the result)
             for i in range(len(prefix), len(ctx.taken)):
                 work.append(ctx.taken[:i] + [not ctx.taken[i]])
